@@ -12,7 +12,9 @@ use and kept for the whole case: it can be entered again nested in itself, neste
 `__call__` builds a new context object per call, so for the model this is a block on an object of its own).
 
 A block ends with `exit ok` (the body runs to its end), `exit exc` (the body raises an `Exception` subclass), `exit base`
-(the body raises a `BaseException` subclass that is not an `Exception`) or `exit cancel` (the task is CANCELLED while it is
+(the body raises a `BaseException` subclass that is not an `Exception`), `exit falsy` (the body raises an exception OBJECT whose
+truth value is False: alternately, per case, an `Exception` subclass defining `__len__` raised empty and a non-`Exception`
+`BaseException` subclass defining `__bool__`) or `exit cancel` (the task is CANCELLED while it is
 suspended at a scripted point inside the body: the body parks on a future that never completes, `task.cancel()` is called
 from the event loop, `asyncio.CancelledError` is raised at that await).  The exception is caught right outside the block
 (and the cancellation taken back with `uncancel()`), so the program goes on.  `rollback` / `commitnow` call `tx.rollback()` /
@@ -57,7 +59,21 @@ class BaseBoom(BaseException):
     """a user-defined BaseException that is not an Exception (like KeyboardInterrupt / SystemExit / GeneratorExit)"""
 
 
-ENDS = ("ok", "exc", "base", "cancel")
+class FalsyBoom(Exception):
+    """an "error collection" exception raised while empty: `bool(exc)` is False (through `__len__`)"""
+
+    def __len__(self):
+        return len(self.args)
+
+
+class FalsyBaseBoom(BaseException):
+    """a BaseException that is not an Exception whose instances are falsy (through `__bool__`)"""
+
+    def __bool__(self):
+        return False
+
+
+ENDS = ("ok", "exc", "base", "cancel", "falsy")
 
 
 def model_key(name: str):
@@ -375,17 +391,20 @@ class TxRunner:
                 self.trace.append((line, "tx=U " + await self.views()))
                 how = state["how"] = await self._block(it)
                 if outer:
-                    self._classify_end({"ok": "commit", "exc": "exception", "base": "base_exception", "cancel": "cancelled"}[how])
+                    self._classify_end({"ok": "commit", "exc": "exception", "base": "base_exception", "cancel": "cancelled", "falsy": "falsy_exception"}[how])
                     if how != "ok" and self.after_reentry:
                         self.bump("exception_leaves_outer_block_after_reentered_block_ended")
                     if how != "ok" and self.after_explicit:
                         self.bump(f"exception_leaves_block_after_explicit_{self.after_explicit}")
-                elif how in ("base", "cancel"):
+                elif how in ("base", "cancel", "falsy"):
                     self.bump(f"inner_block_left_by_{how}")
                 if how == "exc":
                     raise Boom()
                 if how == "base":
                     raise BaseBoom()
+                if how == "falsy":
+                    self.nfalsy = getattr(self, "nfalsy", 0) + 1
+                    raise FalsyBoom() if self.nfalsy % 2 else FalsyBaseBoom()
                 if how == "cancel":
                     # the task is cancelled by somebody else while it is suspended at this point of the body
                     loop = asyncio.get_running_loop()
@@ -416,6 +435,8 @@ class TxRunner:
             came_out = "exc"
         except BaseBoom:
             came_out = "base"
+        except (FalsyBoom, FalsyBaseBoom):
+            came_out = "falsy"
         except asyncio.CancelledError:
             came_out = "cancel"
             asyncio.current_task().uncancel()
@@ -715,7 +736,7 @@ def gen_events(rng, maxlen: int, crossing: bool) -> list[str]:
                 ev.append(enter(stack))
                 opened += 1
             elif opened > 1 and r < 0.35:
-                ev.append(f"exit {rng.choice(['ok', 'ok', 'ok', 'exc', 'exc', 'base', 'cancel'])}")
+                ev.append(f"exit {rng.choice(['ok', 'ok', 'ok', 'exc', 'exc', 'base', 'cancel', 'falsy'])}")
                 stack.pop()
                 opened -= 1
                 if rng.random() < 0.5:
@@ -735,10 +756,10 @@ def gen_events(rng, maxlen: int, crossing: bool) -> list[str]:
                 if w[0] in ("set", "incr", "delete", "expire") and rng.random() < 0.3:
                     # look at the key just written, from inside the transaction
                     ev.append(look_back(rng, w))
-        end = rng.choice(["ok", "ok", "ok", "ok", "ok", "exc", "base", "cancel"])
+        end = rng.choice(["ok", "ok", "ok", "ok", "ok", "exc", "base", "cancel", "falsy"])
         while opened > 1:
             # an exception that leaves the outermost block usually comes from inside: the same kind leaves the inner blocks
-            ev.append(f"exit {end if end != 'ok' and rng.random() < 0.8 else rng.choice(['ok', 'exc', 'base', 'cancel'])}")
+            ev.append(f"exit {end if end != 'ok' and rng.random() < 0.8 else rng.choice(['ok', 'exc', 'base', 'cancel', 'falsy'])}")
             opened -= 1
         ev.append(f"exit {end}")
         if rng.random() < 0.3:
@@ -777,9 +798,9 @@ def nesting_cases(rng=None):
             for pat in _products(ends, len(shape)):
                 # X = left by an exception: an Exception, a non-Exception BaseException, or a cancellation
                 if rng is not None:
-                    variants = [tuple(rng.choice(["exc", "base", "cancel"]) if x == "X" else x for x in pat)]
+                    variants = [tuple(rng.choice(["exc", "base", "cancel", "falsy"]) if x == "X" else x for x in pat)]
                 else:
-                    variants = [tuple(sub if x == "X" else x for x in pat) for sub in (["exc", "base", "cancel"] if "X" in pat else ["exc"])]
+                    variants = [tuple(sub if x == "X" else x for x in pat) for sub in (["exc", "base", "cancel", "falsy"] if "X" in pat else ["exc"])]
                 for xs in variants:
                     yield _nesting_case(shape, mode, xs)
 
